@@ -39,7 +39,7 @@ def analyse(fam, shape, placement, outcomes):
         out.append(ob("C18.S1 emitted-class-compiles", shape, placement, o, "T", not bad, bad[0][2] if bad else "parses; indentation balanced", "C18"))
         if bad:
             continue
-        du = skel.s_defuse(sk, extra_known=("E", "SF", "SB", "SU", "SC", "SP", "SX"))
+        du = skel.s_defuse(sk, extra_known=("E", "SF", "SB", "SU", "SC", "SP", "SX", "SW", "SK"))
         du = [x for x in du if "__init__" not in x[1]]  # constructor value flow is C01's; here: names the file must import
         out.append(ob("C18.S2 every-name-used-is-imported-or-bound", shape, placement, o, "T", not du,
                       "; ".join("%s: %s" % (w, d) for _, w, d in du[:2]) or "every free name of every emitted method is bound or imported by the same file", "C18"))
@@ -51,7 +51,7 @@ def analyse(fam, shape, placement, outcomes):
             elif name in STATIC_IMPORTS:
                 if path != STATIC_IMPORTS[name]:
                     imp_bad.append("%s imported from %s (defined in %s)" % (name, path, STATIC_IMPORTS[name]))
-            elif name in ("E", "SF", "SB", "SU", "SC", "SP", "SX"):
+            elif name in ("E", "SF", "SB", "SU", "SC", "SP", "SX", "SW", "SK"):
                 want = "eolib.protocol._generated." + _snake(name)
                 if path != want:
                     imp_bad.append("%s imported from %s, its module is %s" % (name, path, want))
@@ -114,6 +114,19 @@ def program(rep, index):
     for oname, order in orders.items():
         outs = run_program(session, program_tree, order=order, runs=2)
         rep.count("program evaluations", len(outs))
+        # P8: the paths of one evaluation differ only in what the output directory held beforehand
+        done = [o for o in outs if not o.rejected]
+        if len(done) > 1:
+            ref = {f["path"]: f["content"] for f in done[0].value[0].files}
+            for o in done[1:]:
+                mine = {f["path"]: f["content"] for f in o.value[0].files}
+                missing = sorted(set(ref) ^ set(mine))
+                changed = sorted(p_ for p_ in set(ref) & set(mine) if ref[p_] != mine[p_])
+                rep.ob("C18.P8 output-independent-of-the-output-directory's-earlier-contents",
+                       "generate() over the 7-directory tree, directories enumerated %s, path[%s] vs path[%s]" % (oname, o.path(), done[0].path()),
+                       not missing and not changed,
+                       ("written on one path only: %s; " % missing[:3] if missing else "") + ("different text: %s" % changed[:3] if changed else "")
+                       or "same files, same text", key="C18.P8 | order: %s" % oname)
         for o in outs:
             inst = "generate() over the 7-directory tree, directories enumerated %s, path[%s]" % (oname, o.path())
             if o.rejected:
@@ -130,9 +143,12 @@ def program(rep, index):
                    _diff_files(f1, f2) or "%d files, byte-identical templates on both runs" % len(f1))
             dup = [p for p in f1 if [x["path"] for x in r1.files].count(p) > 1]
             rep.ob("C18.P4 each-file-written-once", inst, not dup, "written more than once: %s" % dup if dup else "%d distinct paths" % len(f1))
-            bad_sink = [(x["path"], x["mode"], x["kw"]) for x in r1.files if x["mode"] != "w" or x["kw"].get("encoding") not in ("utf-8", "utf8", "UTF-8")]
+            utf8 = ("utf-8", "utf8", "UTF-8")
+            bytes_ok = bool(r1.encodings) and all(e in utf8 for e in r1.encodings)
+            bad_sink = [(x["path"], x["mode"], x["kw"]) for x in r1.files
+                        if not ((x["mode"] == "w" and x["kw"].get("encoding") in utf8) or (x["mode"] == "wb" and bytes_ok))]
             rep.ob("C18.P5 files-opened-truncating-with-explicit-encoding", inst, not bad_sink,
-                   "sinks: %s" % bad_sink[:2] if bad_sink else "every sink is open(path, 'w', encoding='utf-8')")
+                   "sinks: %s" % bad_sink[:2] if bad_sink else "every sink is open(path, 'w', encoding='utf-8') (or 'wb' of text encoded as utf-8)")
             bad_mk = [p for p, e in r1.makedirs if e is not True]
             rep.ob("C18.P6 directories-created-with-exist_ok", inst, not bad_mk and len(r1.makedirs) >= len(f1),
                    "makedirs without exist_ok=True: %s" % bad_mk[:2] if bad_mk else "%d makedirs(exist_ok=True)" % len(r1.makedirs))
@@ -254,13 +270,16 @@ def static_rules(rep, index):
     set_typed_attrs, set_typed_names = set(), {}
     for name in mods:
         m = index.module(name)
+        # hash() inside a __hash__ method is the standard idiom (the value only places the object in a set/dict; what
+        # the order of such a container may feed is the business of D2 and of the program runs)
+        in_dunder_hash = {id(x) for f in ast.walk(m.tree) if isinstance(f, ast.FunctionDef) and f.name == "__hash__" for x in ast.walk(f)}
         for n in ast.walk(m.tree):
             if isinstance(n, (ast.Import, ast.ImportFrom)):
                 targets = [a.name for a in n.names] if isinstance(n, ast.Import) else [n.module or ""]
                 for t in targets:
                     if t.split(".")[0] in NONDET_MODULES:
                         rep.ob("C18.D1 no-nondeterministic-module", "%s imports %s" % (name, t), False, "output may depend on %s" % t, loc=index.loc(m, n))
-            if isinstance(n, ast.Call) and isinstance(n.func, ast.Name) and n.func.id in NONDET_CALLS:
+            if isinstance(n, ast.Call) and isinstance(n.func, ast.Name) and n.func.id in NONDET_CALLS and not (n.func.id == "hash" and id(n) in in_dunder_hash):
                 rep.ob("C18.D1 no-nondeterministic-call", "%s calls %s()" % (name, n.func.id), False, "hash()/id() vary between runs", loc=index.loc(m, n))
             if isinstance(n, ast.Attribute) and ast.unparse(n) in ("os.environ", "os.getpid", "os.getcwd", "os.urandom", "sys.argv"):
                 if name != "protocol":
@@ -300,7 +319,7 @@ def static_rules(rep, index):
                     rep.ob("C18.D2 set-iteration-feeds-order-insensitive-sink", "%s.%s line %d" % (name, getattr(fn, "name", "lambda"), node.lineno), ok,
                            why, loc=index.loc(m, node), key="C18.D2 | %s.%s" % (name, getattr(fn, "name", "lambda")))
     rep.count("set iterations", n_iter)
-    rep.floor("set iterations", 2)
+    rep.floor("set iterations", 1)
     # generate(): indexing strictly before emission, accumulators cleared on every exit
     m, fn, cls = index.function(GEN_PKG + ".generate.code_generator.ProtocolCodeGenerator.generate")
     tries = [st for st in fn.body if isinstance(st, ast.Try)]
